@@ -24,7 +24,7 @@ Definition prog_cur_ok (pr : prog) (cu : opk) (p : pc) : Prop :=
 Definition nc_ok (th : thread) : Prop :=
   match tpc th with
   | PIssE | PSave _ => exists c, nc th = Some c /\ c_due c = c_issdue (cfg th) /\ c_kid c = nk th
-  | PPre _ => canc th = false
+  | PPre _ | PLockWait => canc th = false
   | _ => True
   end.
 Definition twf (th : thread) : Prop :=
